@@ -28,3 +28,11 @@ package structfieldeffects
 //@ func fieldPathsForIndex
 //@ prop C16
 //@ ghost returns-owned
+
+//@ -- C04: total comparators (see annotation.FieldPath.Compare)
+//@ func (IndexedFieldPath).compare
+//@ prop C04
+//@ ensures zero-only-for-equal-keys (= (= result 0) (= p other))
+//@ func (returnParamSourceSet).sortedSources$1
+//@ prop C04
+//@ ensures zero-only-for-equal-sources (= (= result 0) (= a b))
